@@ -34,8 +34,12 @@ Definition rfc_body_mode (is_head_m is_connect_m : bool) (status : N) (v11 : boo
            then Ok (RChunked DSize)                       (* chunked wins over Content-Length *)
       else match n with
            | Some k => Ok (RLength k)                     (* exactly Content-Length bytes *)
-           | None => if is_redirect_status status then Ok RNoBody   (* redirect without framing *)
-                     else Ok RClose                       (* until the connection closes *)
+           | None =>                                      (* no Content-Length *)
+               (* a redirect without ANY framing header (neither Content-Length nor Transfer-Encoding,
+                  as text fields) has no body *)
+               if is_redirect_status status && match te with None => true | Some _ => false end
+               then Ok RNoBody
+               else Ok RClose                             (* until the connection closes *)
            end
   end.
 
@@ -45,15 +49,21 @@ Lemma for_response_rfc is_head_m is_connect_m status v11 cl te :
 Proof.
   unfold for_response, rfc_body_mode, header_defined, cl_value, no_body_status, is_redirect_status.
   rewrite Bool.negb_involutive.
-  generalize (match te with Some v0 => te_has_chunked v0 | None => false end). intros chunked.
   generalize (200 <=? status) (status <=? 299) (100 <=? status) (status <=? 199)
              (status =? 204) (status =? 304) (300 <=? status) (status <=? 399).
   intros b1 b2 b3 b4 b5 b6 b7 b8.
-  destruct cl as [v|]; cbn [bind].
-  - destruct (all_digits v); cbn [negb bind]; [|reflexivity].
-    destruct (parse_dec_u64 v) as [n|]; cbn [bind]; [|reflexivity].
-    destruct chunked, v11, is_head_m, is_connect_m, b1, b2, b3, b4, b5, b6, b7, b8; reflexivity.
-  - destruct chunked, v11, is_head_m, is_connect_m, b1, b2, b3, b4, b5, b6, b7, b8; reflexivity.
+  destruct te as [tv|].
+  - generalize (te_has_chunked tv). intros chunked.
+    destruct cl as [v|]; cbn [bind].
+    + destruct (all_digits v); cbn [negb bind]; [|reflexivity].
+      destruct (parse_dec_u64 v) as [n|]; cbn [bind]; [|reflexivity].
+      destruct chunked, v11, is_head_m, is_connect_m, b1, b2, b3, b4, b5, b6, b7, b8; reflexivity.
+    + destruct chunked, v11, is_head_m, is_connect_m, b1, b2, b3, b4, b5, b6, b7, b8; reflexivity.
+  - destruct cl as [v|]; cbn [bind].
+    + destruct (all_digits v); cbn [negb bind]; [|reflexivity].
+      destruct (parse_dec_u64 v) as [n|]; cbn [bind]; [|reflexivity].
+      destruct v11, is_head_m, is_connect_m, b1, b2, b3, b4, b5, b6, b7, b8; reflexivity.
+    + destruct v11, is_head_m, is_connect_m, b1, b2, b3, b4, b5, b6, b7, b8; reflexivity.
 Qed.
 
 (** The successor state after the head. *)
